@@ -146,6 +146,8 @@ pub fn net() -> &'static Net {
 }
 
 // ------------------------------------------------------------------------------------------------ C18
+/// the host of a URL as the model takes it: its octets, "none" for an absent one, "noauth" when the URL has no authority part at all
+fn host_token(p: &url::Url) -> String { if !p.has_authority() { "noauth".into() } else { p.host_str().map(|h| hex(h.as_bytes())).unwrap_or("none".into()) } }
 pub fn gen_setup(rng: &mut Rng, n: usize, out: &mut Vec<String>) {
     let sock_enc: String = SOCK.bytes().map(|b| if b.is_ascii_alphanumeric() || b == b'-' || b == b'.' { (b as char).to_string() } else { format!("%{:02x}", b) }).collect();
     let mut urls: Vec<String> = vec![];
@@ -169,19 +171,19 @@ pub fn gen_setup(rng: &mut Rng, n: usize, out: &mut Vec<String>) {
     while k < total {
         let u = &urls[k / 8]; let v = k % 8;
         let starttls = v & 1; let std = ["none", "none", "tcp", "unix", "invalid", "none", "tcp", "none"][v]; let tmo = if v >= 5 { "2000" } else { "none" };
-        let (sch, host, port) = match url::Url::parse(u) { Ok(p) => (p.scheme().to_string(), p.host_str().map(|h| hex(h.as_bytes())).unwrap_or("none".into()), p.port().map(|x| x.to_string()).unwrap_or("none".into())), Err(_) => ("-".into(), "none".into(), "none".into()) };
+        let (sch, host, port) = match url::Url::parse(u) { Ok(p) => (p.scheme().to_string(), host_token(&p), p.port().map(|x| x.to_string()).unwrap_or("none".into())), Err(_) => ("-".into(), "none".into(), "none".into()) };
         out.push(format!("setup {} {} {} {} {} {} {}", hex(u.as_bytes()), sch, host, port, starttls, std, tmo));
         k += stride;
     }
     // always: socket paths whose percent-encoding hides a colon (the colon test is on the host as written in the URL), an ldapi URL with a real port
-    for u in ["ldapi://%2ftmp%2fl3h%3A389.sock", "ldapi://%2Ftmp%2Fa%3ab", "ldapi://%2ftmp%2fx:389", "ldapi://%2ftmp%2fl3h-setup-%e9.sock", "ldapi://%2ftmp%2fl3h-setup-%E9.sock/", "ldapi://%2ftmp%2fl3h-setup-%c3%a9.sock"] {
-        let (sch, host, port) = match url::Url::parse(u) { Ok(p) => (p.scheme().to_string(), p.host_str().map(|h| hex(h.as_bytes())).unwrap_or("none".into()), p.port().map(|x| x.to_string()).unwrap_or("none".into())), Err(_) => ("-".into(), "none".into(), "none".into()) };
+    for u in ["ldap:localhost", "ldap:localhost:38901", "ldaps:localhost", "ldap:", "ldap:/dc=x", "ldapi:%2ftmp%2fl3h-setup.sock", "ldapi://%2ftmp%2fl3h%3A389.sock", "ldapi://%2Ftmp%2Fa%3ab", "ldapi://%2ftmp%2fx:389", "ldapi://%2ftmp%2fl3h-setup-%e9.sock", "ldapi://%2ftmp%2fl3h-setup-%E9.sock/", "ldapi://%2ftmp%2fl3h-setup-%c3%a9.sock"] {
+        let (sch, host, port) = match url::Url::parse(u) { Ok(p) => (p.scheme().to_string(), host_token(&p), p.port().map(|x| x.to_string()).unwrap_or("none".into())), Err(_) => ("-".into(), "none".into(), "none".into()) };
         out.push(format!("setup {} {} {} {} 0 none none", hex(u.as_bytes()), sch, host, port));
     }
     // always (when the host has an IPv6 loopback): a bracketed IPv6 literal as the host
     if std::net::TcpListener::bind("[::1]:0").is_ok() {
         for u in ["ldap://[::1]:38901", "ldap://[::1]:38901/dc=x"] {
-            let (sch, host, port) = match url::Url::parse(u) { Ok(p) => (p.scheme().to_string(), p.host_str().map(|h| hex(h.as_bytes())).unwrap_or("none".into()), p.port().map(|x| x.to_string()).unwrap_or("none".into())), Err(_) => ("-".into(), "none".into(), "none".into()) };
+            let (sch, host, port) = match url::Url::parse(u) { Ok(p) => (p.scheme().to_string(), host_token(&p), p.port().map(|x| x.to_string()).unwrap_or("none".into())), Err(_) => ("-".into(), "none".into(), "none".into()) };
             out.push(format!("setup {} {} {} {} 0 none none", hex(u.as_bytes()), sch, host, port));
         }
     }
@@ -247,7 +249,7 @@ pub fn run_setup(lane: &str, args: &[&str]) -> (String, Option<String>) {
         let o = match r { Err(_) => Some("connection establishment did not return within 4 s although a connection timeout was set".to_string()), Ok(Ok(_)) => Some("establishment succeeded against an endpoint that cannot complete it".to_string()), Ok(Err(_)) => if t0.elapsed() > Duration::from_millis(3000) { Some("the connection timeout did not bound the establishment".to_string()) } else { None } };
         return ("oracle-only".into(), o);
     }
-    if let Ok(pu) = url::Url::parse(&url) { if pu.scheme() != args[1] || pu.host_str().map(|h| hex(h.as_bytes())).unwrap_or("none".into()) != args[2] || pu.port().map(|x| x.to_string()).unwrap_or("none".into()) != args[3] { return ("url-crate-drift".into(), None); } }
+    if let Ok(pu) = url::Url::parse(&url) { if pu.scheme() != args[1] || host_token(&pu) != args[2] || pu.port().map(|x| x.to_string()).unwrap_or("none".into()) != args[3] { return ("url-crate-drift".into(), None); } }
     let starttls = args[4] == "1";
     nt.events.lock().unwrap().clear();
     let mut pre = "none";
